@@ -181,7 +181,7 @@ func (e *Enc) instr(fr *Frame, st *State, ins ssa.Instruction) {
 		for _, r := range ins.Results {
 			vals = append(vals, e.val(fr, r))
 		}
-		fr.rets = append(fr.rets, retRec{st: st.clone(), vals: vals})
+		fr.rets = append(fr.rets, retRec{st: st.clone(), vals: vals, pos: e.posOf(ins.Pos())})
 		st.Reach = c.False()
 	case *ssa.Panic:
 		e.oblige(fr, st, "safety", "panic", "explicit panic unreachable at "+e.posOf(ins.Pos()), ins.Pos(), c.False(), e.Props)
